@@ -9,7 +9,7 @@ CLANG = 'clang++-14'
 CLANG_FLAGS = ['-std=c++17', '-nostdinc++', '-fno-exceptions', '-fno-rtti', '-fno-builtin', '-O1', '-fno-vectorize',
                '-fno-slp-vectorize', '-fno-unroll-loops', '-mllvm', '-simplifycfg-sink-common=false',
                '-Dprivate=public', '-DCAPPUCCINO_VERIF_HOOKS', '-S', '-emit-llvm']
-CBMC_BASE = ['--function', 'harness', '--unwinding-assertions', '--no-malloc-may-fail', '--drop-unused-functions']
+CBMC_BASE = ['--function', 'harness', '--unwinding-assertions', '--no-malloc-may-fail', '--drop-unused-functions', '--verbosity', '8']
 NO_CACHE = os.environ.get('VERIF_NO_CACHE') == '1'
 JOBS = int(os.environ.get('VERIF_JOBS', '16'))
 
@@ -108,12 +108,14 @@ class Result:
         self.n_failed = 0
         self.vars = 0
         self.clauses = 0
+        self.steps = 0
+        self.vccs = 0
         self.hist = None  # values of the h_* recording variables in the first counterexample trace
 
     def to_json(self):
         return {'status': self.status, 'asserts': {str(k): v for k, v in self.asserts.items()}, 'secs': self.secs,
                 'rss_kb': self.rss_kb, 'note': self.note, 'n_checks': self.n_checks, 'n_failed': self.n_failed,
-                'vars': self.vars, 'clauses': self.clauses, 'hist': self.hist}
+                'vars': self.vars, 'clauses': self.clauses, 'hist': self.hist, 'steps': self.steps, 'vccs': self.vccs}
 
     @staticmethod
     def from_json(j):
@@ -123,6 +125,7 @@ class Result:
         r.secs = j['secs']; r.rss_kb = j['rss_kb']; r.note = j.get('note', '')
         r.n_checks = j.get('n_checks', 0); r.n_failed = j.get('n_failed', 0)
         r.vars = j.get('vars', 0); r.clauses = j.get('clauses', 0)
+        r.steps = j.get('steps', 0); r.vccs = j.get('vccs', 0)
         h = j.get('hist')
         if h is not None:
             r.hist = {k: ({int(i): x for i, x in v.items()} if isinstance(v, dict) else v) for k, v in h.items()}
@@ -181,6 +184,12 @@ def parse_cbmc(out, res):
         m = re.match(r'^(\d+) variables, (\d+) clauses', line)
         if m:
             res.vars = max(res.vars, int(m.group(1))); res.clauses = max(res.clauses, int(m.group(2)))
+        m = re.match(r'^size of program expression: (\d+) steps', line)
+        if m:
+            res.steps = int(m.group(1))
+        m = re.match(r'^Generated (\d+) VCC\(s\), (\d+) remaining', line)
+        if m:
+            res.vccs = int(m.group(2))
 
 
 def kill_query(q):
